@@ -41,19 +41,8 @@ const maxFindExecutionTime = 1 * time.Second
 
 func (c *vcr) StoreCredential(credential vc.VerifiableCredential, validAt *time.Time) error {
 	// ID must be unique
-	if credential.ID != nil {
-		existingCredential, err := c.find(*credential.ID)
-		if err == nil {
-			if credentialsEqual(existingCredential, credential) {
-				log.Logger().
-					WithField(core.LogFieldCredentialID, *credential.ID).
-					Info("Credential already exists")
-				return nil
-			}
-			return fmt.Errorf("credential with same ID but different content already exists (id=%s)", credential.ID)
-		} else if !errors.Is(err, types.ErrNotFound) {
-			return err
-		}
+	if exists, err := c.credentialExists(credential); exists || err != nil {
+		return err
 	}
 
 	// verify first: it must be well-formed for its type (for Nuts credentials: the ID lies in the namespace of the issuer)
@@ -66,7 +55,37 @@ func (c *vcr) StoreCredential(credential vc.VerifiableCredential, validAt *time.
 		return err
 	}
 
+	// StoreCredential can be called concurrently (network subscriber, its retries, reprocess), also for the same ID.
+	// So check again whether the ID is still unused, and write the credential while nobody else can.
+	// Verification is kept outside the lock, since it might involve network I/O.
+	c.storeCredentialMutex.Lock()
+	defer c.storeCredentialMutex.Unlock()
+	if exists, err := c.credentialExists(credential); exists || err != nil {
+		return err
+	}
 	return c.writeCredential(credential)
+}
+
+// credentialExists checks whether the ID of the credential is in use already.
+// It returns true if a credential with the same ID and same content exists.
+// It returns an error if a credential with the same ID but different content exists, or when the lookup fails.
+func (c *vcr) credentialExists(credential vc.VerifiableCredential) (bool, error) {
+	if credential.ID == nil {
+		return false, nil
+	}
+	existingCredential, err := c.find(*credential.ID)
+	if err == nil {
+		if credentialsEqual(existingCredential, credential) {
+			log.Logger().
+				WithField(core.LogFieldCredentialID, *credential.ID).
+				Info("Credential already exists")
+			return true, nil
+		}
+		return false, fmt.Errorf("credential with same ID but different content already exists (id=%s)", credential.ID)
+	} else if !errors.Is(err, types.ErrNotFound) {
+		return false, err
+	}
+	return false, nil
 }
 
 // validateCredential checks the content of the credential using the validator for its type.
